@@ -453,6 +453,7 @@ func RunC19(c *Ctx, r *Report) {
 		}
 	}
 	c.containerResetRule(r, prefix+"reset-drops-storage")
+	c.builderPathsRule(r, prefix+"builders.every-path")
 	c.headerCtorRules(r, prefix, bf)
 	c.threeGPPRules(r, prefix, bf)
 	c.truncationRules(r, prefix)
